@@ -65,9 +65,14 @@ def build_wsdl(ops):
         if o["headers"]:
             bodyparts = ' parts="%s"' % " ".join(pn for pn, _ in o["parts"])
         hdr = "".join('<soap:header message="tns:m_%s" part="%s" use="literal"/>' % (o["name"], h) for h in o["headers"])
-        bindings += ('<binding name="b_%s" type="tns:pt_%s" xmlns:soap="%s"><soap:binding style="%s" transport="http://schemas.xmlsoap.org/soap/http"/>'
-                     '<operation name="%s"><soap:operation%s/><input><soap:body use="literal"%s%s/>%s</input><output><soap:body use="literal"/></output></operation></binding>'
-                     % (o["name"], o["name"], WSOAP[o["version"]], o["style"], o["name"], sa, nsattr, bodyparts if False else "", hdr))
+        # where the style is declared: on the binding, or on the operation overriding a different / absent binding default (WSDL 1.1 s3.4)
+        decl = o.get("style_decl", "binding")
+        other = "rpc" if o["style"] == "document" else "document"
+        bstyle = {"binding": ' style="%s"' % o["style"], "operation-override": ' style="%s"' % other, "operation-only": ""}[decl]
+        ostyle = "" if decl == "binding" else ' style="%s"' % o["style"]
+        bindings += ('<binding name="b_%s" type="tns:pt_%s" xmlns:soap="%s"><soap:binding%s transport="http://schemas.xmlsoap.org/soap/http"/>'
+                     '<operation name="%s"><soap:operation%s%s/><input><soap:body use="literal"%s%s/>%s</input><output><soap:body use="literal"/></output></operation></binding>'
+                     % (o["name"], o["name"], WSOAP[o["version"]], bstyle, o["name"], sa, ostyle, nsattr, bodyparts if False else "", hdr))
         svc.setdefault(o["service"], []).append(
             '<port name="%s" binding="tns:b_%s" xmlns:soap="%s"><soap:address location="%s"/></port>' % (o["port"], o["name"], WSOAP[o["version"]], o["address"]))
     services = "".join('<service name="%s">%s</service>' % (s, "".join(ps)) for s, ps in svc.items())
@@ -95,6 +100,7 @@ def gen_ops(ctx):
                         if nh == 2 and len(headers) < 2:
                             headers = ["hs", "hi"]
                         ops.append(dict(name="op%d" % n, version=version, style=style, parts=parts, headers=headers, soap_action=sa,
+                                        style_decl=("binding", "operation-override", "binding", "operation-only")[n % 4],
                                         service="svcA" if n % 2 == 0 else "svcB", port="Main" if n % 24 in (6, 13) else "p%d" % n,
                                         address="http://%s.example/%d" % ("a" if n % 2 == 0 else "b", n)))
                         n += 1
